@@ -434,6 +434,7 @@ var baseAssumptions = []string{
 	"a callee may allocate: heap entries of objects allocated by a callee are constrained only by the callee's postcondition",
 	"termination is not proved (partial correctness); recursion and loops are cut by contracts and invariants",
 	"strings are an uninterpreted sort with length; no string theory",
+	"values stored in non-empty interfaces (other than error) are pointers or struct values: their payload is an allocated reference",
 }
 
 // writeReplay records a failed obligation: name, reason, solver output, SMT.
